@@ -43,6 +43,7 @@ type script struct {
 	ops      []metaOp
 	block    chan struct{} // non-nil: handler parks here after signalling entered
 	entered  chan struct{}
+	nEntered *int32 // non-nil: only the first invocation parks
 }
 
 type seenReq struct {
@@ -115,7 +116,7 @@ func (b *backendState) call(ctx erpc.CallCtx, canon []byte, raw []byte) (interfa
 	if sc.setCodec != 0 {
 		ctx.SetBodyCodec(sc.setCodec)
 	}
-	if sc.block != nil {
+	if sc.block != nil && parkFirst(sc) {
 		close(sc.entered)
 		<-sc.block
 	}
@@ -484,6 +485,9 @@ type reqCase struct {
 	meta    [][2]string
 	sc      *script
 	fail    string // none closed-local closed-remote dial during
+	redial  bool   // the forwarder is a client session dialled with RedialTimes=times; fail is r-none r-before r-atwrite r-during r-after
+	times   int    // PeerConfig.RedialTimes of the forward peer (0 never, -1 without limit)
+	reach   bool   // the backend accepts a new connection after the cut
 	noise   bool   // unrelated traffic between the forwarded call's completion and the plugin's use of it
 	expInv  bool   // the backend handler is expected to run (route found and body decodable)
 	decVal  string // library decode table entry
@@ -568,10 +572,12 @@ type world struct {
 	dsess                          erpc.Session // caller -> backend
 	csess                          erpc.Session // caller -> proxy
 	fsess                          erpc.Session // proxy(forward peer) -> backend
+	rpeers                         map[int]*redialPeer // forward peers whose sessions redial
 }
 
 func newWorld(cfg *RunCfg) *world {
 	w := &world{cfg: cfg, ren: &renamer{}}
+	erpc.VerifSetGate(nil)
 	w.bePeer = erpc.NewPeer(erpc.PeerConfig{}, &arrivalPlugin{name: "be-arrivals"})
 	w.bePeer.RouteCall(new(B))
 	w.bePeer.RoutePush(new(Q))
@@ -775,6 +781,7 @@ type pairResult struct {
 	missingCode  int32
 	laterChecked bool
 	after        *obs // a healthy proxied call right after a proxied call that ended non-OK
+	follow       *followObs // redial cases: the next proxied call over the same forwarder session
 }
 
 func (w *world) runPair(c *reqCase) *pairResult {
@@ -783,11 +790,15 @@ func (w *world) runPair(c *reqCase) *pairResult {
 	if w.gone() {
 		return res
 	}
-	res.p = w.runProxied(c)
+	if c.redial {
+		res.p = w.runProxiedRedial(c, res)
+	} else {
+		res.p = w.runProxied(c)
+	}
 	if w.gone() || c.route == "own" {
 		return res
 	}
-	if c.fail != "none" {
+	if c.expectFail() {
 		// that call only: unrelated failures still report their own codes
 		w.at("follow-up: call on an unrelated closed session, direct call of a missing method")
 		other := w.dial(w.clPeer, w.beLis.Addr)
@@ -799,7 +810,7 @@ func (w *world) runPair(c *reqCase) *pairResult {
 		res.missingStat, res.missingCode = triple(s2), s2.Code()
 		res.laterChecked = true
 	}
-	if c.fail != "none" || (!c.push && res.p.code != 0) {
+	if !c.redial && (c.fail != "none" || (!c.push && res.p.code != 0)) {
 		// on purpose: a proxied call that ended non-OK (backend status or Bad Gateway) is
 		// followed by a proxied call the backend answers OK
 		w.at("follow-up: healthy proxied call after a non-OK one")
@@ -850,8 +861,7 @@ func (w *world) runProxied(c *reqCase) *obs {
 		fs := w.fsess
 		WaitUntil(waitLong, func() bool { return !fs.Health() })
 	case "dial":
-		dead, err := Listen(w.bePeer, "")
-		Must(err)
+		dead := listenLow(w.bePeer)
 		dead.Close()
 		setFwd(dialFwd{peer: w.fwPeer, addr: dead.Addr})
 	}
@@ -1289,6 +1299,9 @@ func genCase(cfg *RunCfg) *reqCase {
 	if c.route != "own" && r.Intn(8) == 0 {
 		c.fail = []string{"closed-local", "closed-remote", "dial", "during"}[r.Intn(4)]
 	}
+	if c.route != "own" && c.fail == "none" && r.Intn(8) == 0 {
+		genRedial(cfg, c)
+	}
 	if c.push {
 		c.classes = append(c.classes, "mtype:push")
 	} else {
@@ -1391,15 +1404,19 @@ func human(c *reqCase) string {
 	if c.sc.stat != nil {
 		st = fmt.Sprintf("%s/%q/%q(%v)", c.sc.stat[0], c.sc.stat[1], c.sc.stat[2], c.sc.hasCause)
 	}
+	fail := c.fail
+	if c.redial {
+		fail = fmt.Sprintf("%s(forwarder RedialTimes=%d, backend reachable after the cut=%v)", c.fail, c.times, c.reach)
+	}
 	return fmt.Sprintf("push=%v method=%q codec=%#02x body[%d]=%s meta=%q backend-status=%s setcodec=%d ops=%v fail=%s",
-		c.push, c.method, c.codec, len(c.body), Hx(b), c.meta, st, c.sc.setCodec, c.sc.ops, c.fail)
+		c.push, c.method, c.codec, len(c.body), Hx(b), c.meta, st, c.sc.setCodec, c.sc.ops, fail)
 }
 
 func runC19(cfg *RunCfg) {
 	Quiet()
 	w := newWorld(cfg)
 	st := NewStats("C19", cfg)
-	st.Rule = "pairs = one generated request sent directly to the backend and through the proxy; classes route{raw,str,obj,pb,none,own} x body x codec id{j,s,p,f,unregistered} x request metadata (repeated keys, X-Real-IP absent/present/empty/twice, X-Accept-Body-Codec) ; 15% of the pairs enumerate reply-codec negotiation uniformly: request codec{j,s,p,f,x} x X-Accept-Body-Codec{none, each registered codec, unregistered} x handler{default rule, SetBodyCodec of each codec} x backend status{ok,custom,4xx,5xx,edge,conn-class} x reply{echo,raw,string,obj,pb} x reply codec override x reply metadata ops x mtype{call,push} x failure{none,closed-local,closed-remote,dial,during} x caller session renamed by the proxy application (SetID in PostAccept) or not x unrelated traffic injected between the forwarded call's completion and the plugin's use of it (1/4 of the calls); every 150 pairs a burst of 8 concurrent callers x 30 proxied calls with per-call reply metadata; distinct by full rendered input; non-trivial = forwarded route (not own) with non-empty body or metadata or non-OK status or failure"
+	st.Rule = "pairs = one generated request sent directly to the backend and through the proxy; classes route{raw,str,obj,pb,none,own} x body x codec id{j,s,p,f,unregistered} x request metadata (repeated keys, X-Real-IP absent/present/empty/twice, X-Accept-Body-Codec) ; 15% of the pairs enumerate reply-codec negotiation uniformly: request codec{j,s,p,f,x} x X-Accept-Body-Codec{none, each registered codec, unregistered} x handler{default rule, SetBodyCodec of each codec} x backend status{ok,custom,4xx,5xx,edge,conn-class} x reply{echo,raw,string,obj,pb} x reply codec override x reply metadata ops x mtype{call,push} x failure{none,closed-local,closed-remote,dial,during} x forwarder = client session of a peer with RedialTimes{0,1,2,3,-1} (1/8 of the pairs) with the backend connection cut {not at all, before the request is written, between write()'s status test and the bytes (gate write.prelock), after the backend handler was entered and before its reply, after the reply} x backend reachable for the redial or not, each followed by one more proxied call over the same forwarder session x caller session renamed by the proxy application (SetID in PostAccept) or not x unrelated traffic injected between the forwarded call's completion and the plugin's use of it (1/4 of the calls); every 150 pairs a burst of 8 concurrent callers x 30 proxied calls with per-call reply metadata; distinct by full rendered input; non-trivial = forwarded route (not own) with non-empty body or metadata or non-OK status or failure"
 	cw := NewCaseWriter(cfg)
 	distinct := DistinctSet{}
 	sent0 := sentinelSnapshot()
@@ -1421,7 +1438,13 @@ func runC19(cfg *RunCfg) {
 		if c.fail == "during" && (!c.expInv || c.push) {
 			c.fail = "none" // the connection can only be cut mid-call while a call handler runs
 		}
+		if c.fail == "r-during" && (!c.expInv || c.push) {
+			c.fail = "r-before"
+		}
 		c.classes = append(c.classes, "fail:"+c.fail)
+		if c.redial {
+			c.classes = append(c.classes, fmt.Sprintf("redial:times=%d", c.times), fmt.Sprintf("redial:%s/reachable=%v/enabled=%v", c.fail, c.reach, c.times != 0))
+		}
 		if !c.push && c.fail == "none" && c.route != "own" && cfg.Rng.Intn(4) == 0 {
 			c.noise = true
 			c.classes = append(c.classes, "delayed-copy:unrelated-traffic-before-the-plugin-reads-the-reply")
@@ -1496,6 +1519,15 @@ func runC19(cfg *RunCfg) {
 			sent0 = sent1
 		}
 		connClass := c.sc.stat != nil && func() bool { var n int; fmt.Sscan(c.sc.stat[0], &n); return n >= 100 && n <= 199 }()
+		if c.redial {
+			checkRedial(st, i, h, c, d, p, res.follow)
+		}
+		failBranch := c.expectFail()
+		if c.redial && c.fail == "r-atwrite" && p.arrived == 1 && (c.push || p.code != erpc.CodeBadGateway) {
+			// bytes written into a connection that was just cut are lost in the code as it is; an
+			// implementation that delivers them once after all is judged as a plain forward
+			failBranch = false
+		}
 		switch {
 		case c.route == "own":
 			if p.arrived != 0 || p.fwdCalls != 0 {
@@ -1504,7 +1536,7 @@ func runC19(cfg *RunCfg) {
 			if p.stat != VS("ok") || !bytes.Equal(p.result, append([]byte("own:"), c.body...)) {
 				st.Fail(i, "own-result", "the proxy's own handler result is wrong: "+p.stat, h)
 			}
-		case c.fail == "none":
+		case !failBranch:
 			if p.fwdCalls != 1 || p.arrived != 1 {
 				st.Fail(i, "forwarded-once", fmt.Sprintf("forwarder used %d times, backend received %d requests", p.fwdCalls, p.arrived), h)
 			}
@@ -1540,10 +1572,7 @@ func runC19(cfg *RunCfg) {
 					st.Fail(i, "bad-gateway-body", "a failed forward produced a result body", h)
 				}
 			}
-			wantArr := 0
-			if c.fail == "during" {
-				wantArr = 1
-			}
+			wantArr := c.wantArrived()
 			if p.fwdCalls != 1 || p.arrived != wantArr {
 				st.Fail(i, "forwarded-once", fmt.Sprintf("failure %s: forwarder used %d times, backend received %d requests (want %d)", c.fail, p.fwdCalls, p.arrived, wantArr), h)
 			}
@@ -1569,8 +1598,11 @@ func runC19(cfg *RunCfg) {
 		// ---- case line for the correspondence with the model ----
 		failIn := VS(strings.Replace(c.fail, "-", "", -1))
 		fwdIn := VS("none")
-		if c.fail != "none" && c.route != "own" {
+		if c.fail != "none" && c.route != "own" && p.fwdStat != "" {
 			fwdIn = VL(VBool(p.fwdIsConn), p.fwdStat)
+		}
+		if c.redial {
+			failIn = VL(VS("redial"), VS(c.fail[2:]), VBool(c.reach), VBool(c.times != 0))
 		}
 		statIn := VS("ok")
 		if c.sc.stat != nil {
@@ -1591,6 +1623,15 @@ func runC19(cfg *RunCfg) {
 		observed := VL(d.val(c.push), p.val(c.push),
 			VL(VN(int64(p.fwdCalls)), VB([]byte(p.labelIP)), VB([]byte(p.labelMeth))),
 			VBool(unchanged))
+		if c.redial {
+			fv := VS("none")
+			if res.follow != nil {
+				fv = res.follow.val()
+			}
+			observed = VL(d.val(c.push), p.val(c.push),
+				VL(VN(int64(p.fwdCalls)), VB([]byte(p.labelIP)), VB([]byte(p.labelMeth))),
+				VBool(unchanged), fv)
+		}
 		// case lines are kept under about 120 KB (AGENT_GUIDE performance notes); pairs with
 		// bigger bodies are checked by the oracle above only, not replayed through the model.
 		if len(inputs)+len(observed) <= 120000 {
